@@ -68,6 +68,10 @@ def _kw(a):
         kw["secure"] = True
     if a["expires"]:
         kw["expires"] = 86400
+    if a.get("expdays", 9) != 9:
+        kw["expires_days"] = a["expdays"]
+    if a.get("maxage0") and not a["maxage"]:
+        kw["max_age"] = 0
     return kw
 
 
@@ -82,6 +86,7 @@ def run_program(ops):
         if api == "clear_cookie":
             kw.pop("expires", None)
             kw.pop("max_age", None)
+            kw.pop("expires_days", None)
         if api == "set_signed_cookie":
             kw.pop("expires", None)
         prog.append((api, _s(name), value if isinstance(value, bytes) else _s(value), kw))
@@ -93,7 +98,7 @@ def run_program(ops):
             attrs = dict(a)
             val = list(value)
             if api == "clear_cookie":
-                attrs.update(expires=True, maxage=0)
+                attrs.update(expires=True, maxage=0, expdays=9, maxage0=False)
                 val = []
             elif api == "set_signed_cookie":
                 # the value that must be readable back is the signed token the framework produced
@@ -126,7 +131,8 @@ def trace_of_path(args):
     return {"id": tid, "cfg": {}, "ev": run_program(ops)}
 
 
-PLAIN = {"domain": [], "path": [47], "samesite": [], "maxage": 0, "httponly": False, "secure": False, "expires": False}
+PLAIN = {"domain": [], "path": [47], "samesite": [], "maxage": 0, "httponly": False, "secure": False, "expires": False,
+         "expdays": 9, "maxage0": False}
 
 
 def random_program(args):
@@ -151,10 +157,13 @@ def random_program(args):
             a["samesite"] = text(apool, [0, 0, 3]) if rng.random() < 0.5 else rng.choice([[], [ord(c) for c in "Lax"], [ord(c) for c in "None"]])
             a["maxage"] = rng.choice([0, 0, 1, 3600])
             a["httponly"], a["secure"], a["expires"] = rng.random() < 0.3, rng.random() < 0.3, rng.random() < 0.3
+            a["expdays"] = rng.choice([9, 9, 9, 0, 1, 30])
+            a["maxage0"] = a["maxage"] == 0 and rng.random() < 0.15
         api = rng.choice(["set_cookie"] * 6 + ["clear_cookie", "set_signed_cookie"])
         if api == "set_signed_cookie":
             value = bytes(rng.randrange(256) for _ in range(rng.choice([0, 1, 5, 40])))
             a["maxage"] = 0
+            a["maxage0"] = False
         else:
             value = text(pool, [0, 1, 2, 3, 6, 12, 40])
         ops.append((api, name, value, a))
